@@ -78,11 +78,13 @@ type State struct {
 	trace []string
 	// iterator states, keyed by iterator id
 	iters map[int]*IterState
+	facts map[*Term]bool
+	dead  bool
 	// panicked paths etc. handled by outcomes
 }
 
 func (s *State) clone() *State {
-	n := &State{pc: append([]*Term(nil), s.pc...), mem: make(map[*Obj]Val, len(s.mem)), world: s.world.clone(), trace: append([]string(nil), s.trace...)}
+	n := &State{pc: append([]*Term(nil), s.pc...), mem: make(map[*Obj]Val, len(s.mem)), world: s.world.clone(), trace: append([]string(nil), s.trace...), dead: s.dead}
 	for k, v := range s.mem {
 		n.mem[k] = v
 	}
@@ -100,17 +102,30 @@ func (s *State) assume(t *Term) {
 	if t == nil || t.IsTrue() {
 		return
 	}
+	if t.kind == tApp && t.Op == "and" {
+		for _, a := range t.Args {
+			s.assume(a)
+		}
+		return
+	}
+	if s.facts == nil {
+		s.facts = map[*Term]bool{}
+		for _, p := range s.pc {
+			s.facts[p] = true
+		}
+	}
+	if s.facts[t] {
+		return
+	}
+	if t.IsFalse() || s.facts[Not(t)] {
+		s.dead = true
+	}
+	// equality with a literal contradicts another equality of the same term with a different literal
+	s.facts[t] = true
 	s.pc = append(s.pc, t)
 }
 
-func (s *State) infeasible() bool {
-	for _, t := range s.pc {
-		if t.IsFalse() {
-			return true
-		}
-	}
-	return false
-}
+func (s *State) infeasible() bool { return s.dead }
 
 // ---------------------------------------------------------------------------------------
 // Obligations
@@ -377,8 +392,23 @@ func (x *Exec) writePath(cur Val, path []pathElem, v Val) Val {
 		nv := x.writePath(sub, path[1:], v)
 		nt, ok := nv.(*Term)
 		if !ok {
-			x.errorf("storing non-term %T into term struct", nv)
-			return c
+			var want *Sort
+			if !pe.isIdx && c.Sort.Kind == KData {
+				want = c.Sort.Fields[pe.field].Sort
+			}
+			if want == SRef {
+				switch pv := nv.(type) {
+				case *PtrVal:
+					nt = Sym(fmt.Sprintf("ref:obj%d", pv.Obj.id), SRef)
+				case *NilPtr:
+					nt = RefNil
+				default:
+					nt = Sym("ref:opaque", SRef)
+				}
+			} else {
+				x.errorf("storing non-term %T into term struct", nv)
+				return c
+			}
 		}
 		if pe.isIdx {
 			if isSliceSort(c.Sort) {
@@ -529,7 +559,7 @@ func (x *Exec) constVal(c *ssa.Const) Val {
 			return IntLit(0)
 		}
 		if SortOf(t) == SReal {
-			return &Term{kind: tRealLit, Name: realLit(new(big.Rat).SetInt(b)), Sort: SReal}
+			return intern(&Term{kind: tRealLit, Name: realLit(new(big.Rat).SetInt(b)), Sort: SReal})
 		}
 		return BigLit(b)
 	case constant.String:
@@ -543,7 +573,7 @@ func (x *Exec) constVal(c *ssa.Const) Val {
 			f, _ := constant.Float64Val(c.Value)
 			r = new(big.Rat).SetFloat64(f)
 		}
-		return &Term{kind: tRealLit, Name: realLit(r), Sort: SReal}
+		return intern(&Term{kind: tRealLit, Name: realLit(r), Sort: SReal})
 	}
 	x.errorf("unsupported constant %s", c.String())
 	return &OpaqueVal{Name: "const"}
@@ -559,8 +589,18 @@ func realLit(r *big.Rat) string {
 	return s
 }
 
-func bytesOfStr(s *Term) *Term { return UF("bytes_of_str", SBytes, s) }
-func strOfBytes(b *Term) *Term { return UF("str_of_bytes", SStr, b) }
+func bytesOfStr(s *Term) *Term {
+	if s.kind == tUF && s.Op == "str_of_bytes" {
+		return s.Args[0]
+	}
+	return UF("bytes_of_str", SBytes, s)
+}
+func strOfBytes(b *Term) *Term {
+	if b.kind == tUF && b.Op == "bytes_of_str" {
+		return b.Args[0]
+	}
+	return UF("str_of_bytes", SStr, b)
+}
 
 func (x *Exec) globalVal(st *State, g *ssa.Global) Val {
 	// A global is a pointer to its storage. We model package-level variables as immutable named
@@ -1161,7 +1201,13 @@ func (x *Exec) binop(f *Frame, st *State, in *ssa.BinOp) (Val, bool) {
 }
 
 func (x *Exec) cmpSpecial(st *State, a, b Val) (*Term, bool) {
-	isNil := func(v Val) bool { _, ok := v.(*NilPtr); return ok }
+	isNil := func(v Val) bool {
+		if t, ok := v.(*Term); ok && t.kind == tSym && (t.Name == "bytes:nil" || t.Name == "ref:nil") {
+			return true
+		}
+		_, ok := v.(*NilPtr)
+		return ok
+	}
 	nilness := func(v Val) *Term {
 		switch c := v.(type) {
 		case *NilPtr:
@@ -1182,6 +1228,8 @@ func (x *Exec) cmpSpecial(st *State, a, b Val) (*Term, bool) {
 			return False
 		case *OpaqueVal:
 			return Sym("isnil:"+c.Name, SBool)
+		case *AccountVal:
+			return Not(c.Exists)
 		case *Term:
 			switch {
 			case c.Sort == SBytes:
@@ -1191,12 +1239,17 @@ func (x *Exec) cmpSpecial(st *State, a, b Val) (*Term, bool) {
 			case isSliceSort(c.Sort):
 				return Eq(SelField(c, 0), IntLit(0))
 			case c.Sort == SCoins:
-				return UF("coins_isnil", SBool, c)
+				return x.coinsPred(st, "coins_iszero", c, func(a *Term) *Term { return Eq(a, IntLit(0)) }, true)
 			case c.Sort == SRef:
 				return Eq(c, RefNil)
 			}
 		}
 		return nil
+	}
+	_, aTerm := a.(*Term)
+	_, bTerm := b.(*Term)
+	if aTerm && bTerm {
+		return nil, false
 	}
 	if isNil(a) && isNil(b) {
 		return True, true
